@@ -1,5 +1,7 @@
 import Casm.Model.Assemble
 import Casm.Proofs.AssembleLemmas
+import Casm.Proofs.IfSplice
+import Casm.Proofs.CondLoop
 /-!
 # C16 — conditional assembly and command-line defines select exactly one world
 
@@ -18,72 +20,16 @@ About the model of the first loop of `asm::assemble` (`resolveIfs`, `checkLeftov
   constant of that name and marks it resolved; the iterative resolver never re-evaluates a
   resolved constant.
 * `unused_define_is_error` — a successful assembly has no unused define.
+* **the whole loop** — `conditionals_are_selected_by_the_final_state`: whenever the front end succeeds, the
+  node list that goes on to be assembled is (item references aside) the parsed program with every conditional,
+  nested to any depth, replaced by the arm its conditions select *as evaluated in the one final state of the
+  loop* (`Sel`, `selected_true_arm`, `selected_false_arm`), and no conditional is left.  The loop decides
+  conditionals round by round, each in the state of its round; `decided_condition_is_stable` (a definite value
+  of `eval_simple` is its value in every later state: `Casm/Proofs/EvalDefinite`, `CondStable`) and
+  `every_round_leads_to_a_later_state` (names only grow: `CondNames`; a definite value is re-evaluated to itself
+  or not at all: `CondValues`) make the two the same (`CondLoop.declLoop_selects`).
 -/
 namespace Casm.C16
-
-/-- what one round does with one node -/
-def spliceOne (d : Decls) (defs : Defs) (n : AstNode) : List AstNode :=
-  match n with
-  | .ifDir cond t f =>
-    match evalSimple d defs cond with
-    | .ok (.bool true) => t.map AstNode.fresh
-    | .ok (.bool false) => (f.getD []).map AstNode.fresh
-    | _ => [n]
-  | _ => [n]
-
-/-- the step of `resolveIfs` (as a right fold) -/
-def ifStep (d : Decls) (defs : Defs) (n : AstNode) (acc : Except String (List AstNode × Nat)) : Except String (List AstNode × Nat) :=
-  match acc with
-  | .error e => .error e
-  | .ok (out, count) =>
-    match n with
-    | .ifDir cond t f =>
-      match evalSimple d defs cond with
-      | .error m => .error m
-      | .ok (.bool true) => .ok (t.map AstNode.fresh ++ out, count + 1)
-      | .ok (.bool false) => .ok ((f.getD []).map AstNode.fresh ++ out, count + 1)
-      | .ok _ => .ok (n :: out, count)
-    | _ => .ok (n :: out, count)
-
-theorem resolveIfs_foldr (d : Decls) (defs : Defs) (nodes : List AstNode) :
-    resolveIfs d defs nodes = nodes.foldr (ifStep d defs) (.ok ([], 0)) := by
-  unfold resolveIfs
-  rw [List.foldl_reverse]
-  rfl
-
-theorem foldr_splices (d : Decls) (defs : Defs) (nodes : List AstNode) (out : List AstNode) (k : Nat)
-    (h : nodes.foldr (ifStep d defs) (.ok ([], 0)) = .ok (out, k)) :
-    out = nodes.flatMap (spliceOne d defs) := by
-  induction nodes generalizing out k with
-  | nil => simp only [List.foldr_nil] at h; injection h with h; injection h with h1 _; simp [← h1]
-  | cons n rest ih =>
-    simp only [List.foldr_cons] at h
-    cases hr : rest.foldr (ifStep d defs) (.ok ([], 0)) with
-    | error e => rw [hr] at h; simp [ifStep] at h
-    | ok x =>
-      obtain ⟨out', k'⟩ := x
-      have ih' := ih out' k' hr
-      rw [hr] at h
-      simp only [List.flatMap_cons, ← ih']
-      unfold ifStep at h
-      simp only at h
-      unfold spliceOne
-      split at h
-      · rename_i cond t f
-        split at h
-        · cases h
-        · rename_i he; injection h with h; injection h with h1 _; simp [he, ← h1]
-        · rename_i he; injection h with h; injection h with h1 _; simp [he, ← h1]
-        · rename_i v hv1 hv2 he
-          injection h with h; injection h with h1 _
-          rw [← h1]
-          split
-          · rename_i he'; rw [he] at he'; injection he' with he'; exact absurd he' (hv1 ·)
-          · rename_i he'; rw [he] at he'; injection he' with he'; exact absurd he' (hv2 ·)
-          · rfl
-      · injection h with h; injection h with h1 _
-        rw [← h1]
-        rfl
 
 /-- **one round splices exactly the selected arms, in place** -/
 theorem resolveIfs_splices (d : Decls) (defs : Defs) (nodes out : List AstNode) (k : Nat)
@@ -160,5 +106,157 @@ theorem unused_define_is_error (opts : Opts) (fs : SrcFiles) (roots : List (List
         · cases h
         · rename_i hu
           simpa using hu
+
+/-! ## the whole loop -/
+
+/-- **a condition decided once stays decided**: the value `eval_simple` gives a condition (or any expression) in
+    some round is the value it gives in every later state of the loop — names that resolve keep resolving to the
+    same declaration, symbols that hold a definite value keep it -/
+theorem decided_condition_is_stable (d : Decls) (defs : Defs) (d' : Decls) (defs' : Defs) (h : Later d defs d' defs')
+    (cond : Expr) (b : Bool) (hc : evalSimple d defs cond = .ok (.bool b)) : evalSimple d' defs' cond = .ok (.bool b) :=
+  evalSimple_later d defs d' defs' h cond (.bool b) hc rfl
+
+/-- **every round of the loop leads to a later state** (declarations are only added; a constant that holds a
+    definite value is re-evaluated to that value or not at all) -/
+theorem every_round_leads_to_a_later_state {opts : Opts} {d d1 : Decls} {defs defs2 : Defs} {nodes n1 : List AstNode} {cnt : Nat}
+    (f : FInv opts d defs nodes) (c : CInv opts d defs nodes) (hb : Built d.symbols)
+    (hc : collectAll d nodes = .ok (d1, n1))
+    (hr : resolveConstantsSimple opts d1 (defineSymbols defs n1) n1 = .ok (defs2, cnt)) : Later d defs d1 defs2 :=
+  (round_later f c hb hc hr).1
+
+/-- **C16 for the whole loop.**  Whenever the front end succeeds, the node list that goes on to be assembled is —
+    item references aside — the parsed program with every `#if`/`#elif`/`#else` chain, nested to any depth, replaced by
+    exactly the arm that the conditions select **as evaluated in the one final state of the loop** (`Sel`); no
+    conditional is left.  The loop decides conditionals round by round, each in the state of its round; that this is
+    the same as deciding all of them in the final state is `decided_condition_is_stable`. -/
+theorem conditionals_are_selected_by_the_final_state (opts : Opts) (fs : SrcFiles) (roots : List (List Char))
+    (d : Decls) (defs : Defs) (nodes : List AstNode) (hp : frontEndPre opts fs roots = .ok (d, defs, nodes)) :
+    ∃ parsed defsL nodesL, parseMany fs roots = .ok parsed ∧
+      Sel d defsL (parsed.map AstNode.fresh) (nodesL.map AstNode.fresh) ∧
+      (∀ n ∈ nodesL, ∀ c t f, n ≠ .ifDir c t f) ∧
+      defineRemaining d defsL nodesL = .ok (defs, nodes) := by
+  unfold frontEndPre at hp
+  cases hpm : parseMany fs roots with
+  | error e => rw [hpm] at hp; cases hp
+  | ok parsed =>
+    rw [hpm] at hp
+    have hmap : (Except.ok parsed : Except String (List AstNode)).map (·.map AstNode.fresh) = .ok (parsed.map AstNode.fresh) := rfl
+    rw [hmap] at hp
+    split at hp
+    · cases hp
+    · rename_i nodes0 hn0
+      injection hn0 with hn0
+      subst hn0
+      split at hp
+      · cases hp
+      · rename_i bm hdecl
+        simp only at hp
+        split at hp
+        · cases hp
+        · rename_i d2 defs2 nodes2 hl
+          split at hp
+          · cases hp
+          · rename_i hleft
+            split at hp
+            · cases hp
+            · rename_i defs3 nodes3 hdr
+              injection hp with hp; injection hp with h1 h2
+              injection h2 with h2 h3
+              subst h1 h2 h3
+              -- the invariants of the initial state: parser output carries no references, there are no slots
+              have hfresh : ∀ x ∈ parsed.map AstNode.fresh, ∃ y, x = AstNode.fresh y := by
+                intro x hx
+                obtain ⟨y, _, rfl⟩ := List.mem_map.mp hx
+                exact ⟨y, rfl⟩
+              have f0 : FInv opts ({ banks := bm } : Decls) {} (parsed.map AstNode.fresh) := by
+                refine ⟨fun x hx => ?_, fun a ha b hb r h1 _ => ?_, fun r hr => (by cases hr), fun n hn => ?_⟩
+                · obtain ⟨y, rfl⟩ := hfresh x hx; exact KN_fresh _ y
+                · obtain ⟨y, rfl⟩ := hfresh a ha; rw [symRef_fresh] at h1; cases h1
+                · obtain ⟨y, rfl⟩ := hfresh n hn
+                  cases y <;> first | trivial | (rename_i kd _ _; cases kd <;> trivial)
+              have c0 : CInv opts ({ banks := bm } : Decls) {} (parsed.map AstNode.fresh) := by
+                intro n hn
+                obtain ⟨y, rfl⟩ := hfresh n hn
+                exact CI_noref opts _ _ _ (symRef_fresh y)
+              obtain ⟨_, hsel, hund⟩ := declLoop_selects opts _ _ _ _ _ _ _ _ f0 c0 (Built.new "symbol") hl
+              refine ⟨parsed, defs2, nodes2, rfl, ?_, ?_, hdr⟩
+              · rw [map_fresh_fresh] at hsel; exact hsel
+              · intro n hn c t f he
+                subst he
+                obtain ⟨m, hm⟩ := leftover_conditional_is_error d2 defs2 nodes2 c t f hn
+                rw [hm] at hleft
+                cases hleft
+
+theorem no_self_arm (c : Expr) (t : List AstNode) (f : Option (List AstNode)) : t ≠ [AstNode.ifDir c t f] := by
+  intro h
+  have := congrArg sizeOf h
+  simp at this
+  omega
+
+/-- what `Sel` says of one conditional: if the final state decides its condition true, exactly the selection of its
+    first arm is there — nothing of the else-part… -/
+theorem selected_true_arm (d : Decls) (defs : Defs) (c : Expr) (t : List AstNode) (f : Option (List AstNode)) (o : List AstNode)
+    (hc : evalSimple d defs c = .ok (.bool true)) (h : SelNode d defs (.ifDir c t f) o) : Sel d defs (t.map AstNode.fresh) o := by
+  cases h with
+  | yes _ hs => exact hs
+  | no hf _ => rw [hc] at hf; cases hf
+  | keep hk =>
+    exfalso
+    simp only [spliceOne, hc] at hk
+    obtain ⟨a, ha, hfa⟩ : ∃ a, t = [a] ∧ a.fresh = AstNode.ifDir c t f := by
+      cases t with
+      | nil => cases hk
+      | cons a rest =>
+        cases rest with
+        | nil => simp only [List.map_cons, List.map_nil, List.cons.injEq, and_true] at hk; exact ⟨a, rfl, hk⟩
+        | cons b r => simp at hk
+    have : a = AstNode.ifDir c t f := by
+      cases a <;> first | exact hfa | cases hfa
+    rw [this] at ha
+    exact no_self_arm c t f ha
+
+/-- …and if it decides the condition false, exactly the selection of the else-part (every `#elif`/`#else`), or nothing -/
+theorem selected_false_arm (d : Decls) (defs : Defs) (c : Expr) (t : List AstNode) (f : Option (List AstNode)) (o : List AstNode)
+    (hc : evalSimple d defs c = .ok (.bool false)) (h : SelNode d defs (.ifDir c t f) o) :
+    Sel d defs ((f.getD []).map AstNode.fresh) o := by
+  cases h with
+  | yes ht _ => rw [hc] at ht; cases ht
+  | no _ hs => exact hs
+  | keep hk =>
+    exfalso
+    simp only [spliceOne, hc] at hk
+    obtain ⟨a, ha, hfa⟩ : ∃ a, f.getD [] = [a] ∧ a.fresh = AstNode.ifDir c t f := by
+      cases hq : f.getD [] with
+      | nil => rw [hq] at hk; cases hk
+      | cons a rest =>
+        rw [hq] at hk
+        cases rest with
+        | nil => simp only [List.map_cons, List.map_nil, List.cons.injEq, and_true] at hk; exact ⟨a, rfl, hk⟩
+        | cons b r => simp at hk
+    have : a = AstNode.ifDir c t f := by
+      cases a <;> first | exact hfa | cases hfa
+    rw [this] at ha
+    cases f with
+    | none => cases ha
+    | some e =>
+      simp only [Option.getD_some] at ha
+      have := congrArg sizeOf ha
+      simp at this
+      omega
+
+/-- `Sel` at work: `#if true { #if false { A } #else { B } }` selects `B` and nothing else, in every state -/
+example (d : Decls) (defs : Defs) :
+    Sel d defs [.ifDir (.lit (.bool true)) [.ifDir (.lit (.bool false)) [.once] (some [.include []])] none] [.include []] := by
+  have e1 : (AstNode.include []).fresh = .include [] := rfl
+  have inner : Sel d defs ([AstNode.include []].map AstNode.fresh) [.include []] := by
+    have := Sel.cons (d := d) (defs := defs) (SelNode.keep (n := .include []) rfl) Sel.nil
+    simpa [e1] using this
+  have mid : SelNode d defs (.ifDir (.lit (.bool false)) [.once] (some [.include []])) [.include []] :=
+    SelNode.no (c := .lit (.bool false)) rfl inner
+  have outer : Sel d defs ([AstNode.ifDir (.lit (.bool false)) [.once] (some [.include []])].map AstNode.fresh) [.include []] := by
+    have := Sel.cons mid (Sel.nil (d := d) (defs := defs))
+    simpa [fresh_ifDir] using this
+  have := Sel.cons (SelNode.yes (c := .lit (.bool true)) (f := none) rfl outer) (Sel.nil (d := d) (defs := defs))
+  simpa using this
 
 end Casm.C16
